@@ -64,6 +64,52 @@ def ladd : List K → List K → List K
   | a :: as, b :: bs => (a + b) :: ladd as bs
   | _, _ => []
 
+
+/-! ### the Daleckii–Krein fourth order tensor in the storage used by the code
+
+`eigD c v` is the storage of `N = v ⊗ v`, `eigX c v w` that of `N = (v ⊗ w + w ⊗ v)/√2` (`c = √2`);
+`tens6 a b` the 6×6 table `a_i b_j` (row major); `DK3 c M Θ = Σ_i Θ_ii N_i ⊗ N_i + Σ_{i<j} Θ_ij N_ij ⊗ N_ij`
+for the columns `v_i` of `M`. `Lemmas.DK3_apply` proves that this table applied to the storage of a symmetric
+`H` is the storage of `dkAct M Θ H`. -/
+def eigD (c x0 x1 x2 : K) : List K := [x0 * x0, x1 * x1, x2 * x2, c * (x0 * x1), c * (x0 * x2), c * (x1 * x2)]
+def eigX (c x0 x1 x2 y0 y1 y2 : K) : List K :=
+  [c * (x0 * y0), c * (x1 * y1), c * (x2 * y2), x0 * y1 + x1 * y0, x0 * y2 + x2 * y0, x1 * y2 + x2 * y1]
+def tens6 : List K → List K → List K
+  | [a0, a1, a2, a3, a4, a5], [b0, b1, b2, b3, b4, b5] =>
+    [a0 * b0, a0 * b1, a0 * b2, a0 * b3, a0 * b4, a0 * b5,
+     a1 * b0, a1 * b1, a1 * b2, a1 * b3, a1 * b4, a1 * b5,
+     a2 * b0, a2 * b1, a2 * b2, a2 * b3, a2 * b4, a2 * b5,
+     a3 * b0, a3 * b1, a3 * b2, a3 * b3, a3 * b4, a3 * b5,
+     a4 * b0, a4 * b1, a4 * b2, a4 * b3, a4 * b4, a4 * b5,
+     a5 * b0, a5 * b1, a5 * b2, a5 * b3, a5 * b4, a5 * b5]
+  | _, _ => []
+def tens4 : List K → List K → List K
+  | [a0, a1, a2, a3], [b0, b1, b2, b3] =>
+    [a0 * b0, a0 * b1, a0 * b2, a0 * b3,
+     a1 * b0, a1 * b1, a1 * b2, a1 * b3,
+     a2 * b0, a2 * b1, a2 * b2, a2 * b3,
+     a3 * b0, a3 * b1, a3 * b2, a3 * b3]
+  | _, _ => []
+def lsmul (k : K) : List K → List K
+  | a :: as => k * a :: lsmul k as
+  | [] => []
+
+def DK3 (c : K) (M Θ : M3 K) : List K :=
+  ladd (lsmul Θ.a00 (tens6 (eigD c M.a00 M.a10 M.a20) (eigD c M.a00 M.a10 M.a20)))
+  (ladd (lsmul Θ.a11 (tens6 (eigD c M.a01 M.a11 M.a21) (eigD c M.a01 M.a11 M.a21)))
+  (ladd (lsmul Θ.a22 (tens6 (eigD c M.a02 M.a12 M.a22) (eigD c M.a02 M.a12 M.a22)))
+  (ladd (lsmul Θ.a01 (tens6 (eigX c M.a00 M.a10 M.a20 M.a01 M.a11 M.a21) (eigX c M.a00 M.a10 M.a20 M.a01 M.a11 M.a21)))
+  (ladd (lsmul Θ.a02 (tens6 (eigX c M.a00 M.a10 M.a20 M.a02 M.a12 M.a22) (eigX c M.a00 M.a10 M.a20 M.a02 M.a12 M.a22)))
+        (lsmul Θ.a12 (tens6 (eigX c M.a01 M.a11 M.a21 M.a02 M.a12 M.a22) (eigX c M.a01 M.a11 M.a21 M.a02 M.a12 M.a22)))))))
+
+/-- 2D: in-plane eigenvectors `(m00, m10)`, `(m01, m11)`, out-of-plane axis; four stored components -/
+def DK2 (c m00 m01 m10 m11 t00 t11 t22 t01 : K) : List K :=
+  ladd (lsmul t00 (tens4 [m00 * m00, m10 * m10, 0, c * (m00 * m10)] [m00 * m00, m10 * m10, 0, c * (m00 * m10)]))
+  (ladd (lsmul t11 (tens4 [m01 * m01, m11 * m11, 0, c * (m01 * m11)] [m01 * m01, m11 * m11, 0, c * (m01 * m11)]))
+  (ladd (lsmul t22 (tens4 [0, 0, 1, 0] [0, 0, 1, 0]))
+        (lsmul t01 (tens4 [c * (m00 * m01), c * (m10 * m11), 0, m00 * m11 + m10 * m01]
+                          [c * (m00 * m01), c * (m10 * m11), 0, m00 * m11 + m10 * m01]))))
+
 /-- positive and negative parts of a number (`DecompositionInPositiveAndNegativeParts.ixx`:
 `stensor_ppos`, `stensor_pneg`) in an ordered field -/
 def ppos [LinearOrder K] (x : K) : K := max x 0
